@@ -36,6 +36,17 @@ Theorem stack_order_step :
 Proof. exact step_seq_snoc. Qed.
 Print Assumptions stack_order_step.
 
+(* (2') the dictionary the code actually keeps (first control stored as it is, later ones composed as
+   new @ stored, the product multiplied onto the identity when read) refines the history model:
+   for EVERY history of add_single calls and every (step, side) it yields the product of exactly
+   the controls added for that step and side, in insertion order *)
+Theorem dict_refines_history :
+  forall (A : Type) (mul : A -> A -> A) (one : A), (forall x, mul x one = x) ->
+    forall (hist : list (add A)) (post : bool) (step : Z),
+      dict_step_control A mul one hist post step = eval_opt A mul one (map (a_op A) (step_seq A hist post step)).
+Proof. exact ControlSpec.dict_refines_history. Qed.
+Print Assumptions dict_refines_history.
+
 (* (3) time-keyed controls: sorting by time is stable, so controls given with the same
    float time keep their insertion order, for every history *)
 Theorem stack_order_time :
